@@ -25,6 +25,7 @@ SCENARIOS = [
     {"sims": [{"sid": "Sa", "type": "time-based"}, {"sid": "Sb", "type": "time-based"}],
      "conns": [{"src": "Sa", "dst": "Sb", "sa": "p", "da": "i"}, {"src": "Sb", "dst": "Sa", "sa": "p", "da": "i", "shift": 1, "init": True}], "until": 4},
 ]
+EXCS = ["StopIteration", "KeyError", "ValueError", "StopAsyncIteration"]
 REMOTE_KINDS = ["eof", "reset", "eof_idle", "remote_exception"]
 
 
@@ -55,6 +56,11 @@ def cases(tier, seed):
                                     opt = dict(scn, debug=True) if (k + si) % 2 else dict(scn, debug=True, cache=False)
                                     out.append({"id": [si, sid, req, k, kind, transport, lazy, "debug"], "scn": S.normalize(opt), "seed": rng.randrange(10**6),
                                                 "behaviour": {"kind": "faultplan", "plan": plan, "p_event": 0.8, "ev_next": [None, 1]}, "policy": pol})
+                                    if kind == "raise":
+                                        # an in-process simulator may raise ANY exception type (StopIteration from an exhausted iterator, KeyError, ...)
+                                        for exc in EXCS:
+                                            out.append({"id": [si, sid, req, k, kind, transport, lazy, exc], "scn": S.normalize(scn), "seed": rng.randrange(10**6),
+                                                        "behaviour": {"kind": "faultplan", "plan": dict(plan, exc=exc), "p_event": 0.8, "ev_next": [None, 1]}, "policy": pol})
     return out
 
 
